@@ -43,3 +43,4 @@ def run(ctx, R):
     jit.rule_lw_value(ctx, R, 'a64')
     a64hsem.rule_mem_hsem(ctx, R)
     a64hsem.rule_cbranch(ctx, R)
+    a64hsem.rule_dsoff(ctx, R)
